@@ -447,3 +447,111 @@ package jen
 //@ construct Err kind=token typ=identifier text="err"
 //@ construct Any kind=token typ=identifier text="any"
 //@ construct Comparable kind=token typ=identifier text="comparable"
+
+// ---- hand-written builders (tokens.go, lit.go, add.go, do.go, custom.go, tag.go, comments.go, statement.go) ----
+
+//@ construct Null kind=tokennull
+//@ construct Empty kind=token typ=operator text=""
+//@ construct Line kind=token typ=layout text="\n"
+//@ construct Op kind=tokenstr typ=operator
+//@ construct Id kind=tokenstr typ=identifier
+//@ construct Lit kind=tokenany typ=literal
+//@ construct LitRune kind=tokenrune typ=literal_rune
+//@ construct LitByte kind=tokenbyte typ=literal_byte
+
+//@ func newStatement [C14,C20,C09]
+//@   ensures [C20,C14] empty: fresh(result) && len(*result) == 0 && cap(*result) == 0
+
+//@ func (*Statement).Clone [C20,C14,C09]
+//@   ensures [C20] wrapper: fresh(result) && len(*result) == 1 && (*result)[0] == C_pStatement(s) && fresh((*result).arr)
+//@   ensures [C20] untouched: *s == old(*s)
+
+//@ func (*Statement).Add [C14,C20,C13,C01,C09]
+//@   requires s != nil
+//@   modifies *s, tail(*s)
+//@   ensures [C14,C20] self: result == s
+//@   ensures [C14,C20,C01] appended: len(*s) == old(len(*s)) + len(code) && (forall j int :: { (*s)[j] } (0 <= j && j < old(len(*s))) ==> (*s)[j] == old((*s)[j]))
+//@       && (forall j int :: { (*s)[old(len(*s)) + j] } (0 <= j && j < len(code)) ==> (*s)[old(len(*s)) + j] == old(code[j]))
+//@   ensures [C20] backing: len(*s) <= cap(*s) && (old(len(*s)) + len(code) <= old(cap(*s)) ? (*s).arr == old((*s).arr) && cap(*s) == old(cap(*s)) : fresh((*s).arr))
+
+//@ func (*Statement).Dot [C14,C20,C01,C09]
+//@   requires s != nil
+//@   modifies *s, tail(*s)
+//@   ensures [C14,C20] self: result == s
+//@   ensures [C14,C20,C01] appended: len(*s) == old(len(*s)) + 2 && (forall j int :: { (*s)[j] } (0 <= j && j < old(len(*s))) ==> (*s)[j] == old((*s)[j]))
+//@   ensures [C14,C01] items: (*s)[old(len(*s))] == C_token(mk_token("delimiter", A_string("."))) && (*s)[old(len(*s)) + 1] == C_token(mk_token("identifier", A_string(name)))
+
+//@ func (*Statement).Qual [C14,C20,C01,C03,C09]
+//@   requires s != nil
+//@   modifies *s, tail(*s)
+//@   ensures [C14,C20] self: result == s
+//@   ensures [C14,C20,C01] appended: len(*s) == old(len(*s)) + 1 && (forall j int :: { (*s)[j] } (0 <= j && j < old(len(*s))) ==> (*s)[j] == old((*s)[j]))
+//@   ensures [C14,C01,C03] item: is_C_pGroup((*s)[old(len(*s))]) && fresh(C_pGroup_v((*s)[old(len(*s))]))
+//@       && C_pGroup_v((*s)[old(len(*s))]).name == "qual" && C_pGroup_v((*s)[old(len(*s))]).open == "" && C_pGroup_v((*s)[old(len(*s))]).close == ""
+//@       && C_pGroup_v((*s)[old(len(*s))]).separator == "." && !C_pGroup_v((*s)[old(len(*s))]).multi && len(C_pGroup_v((*s)[old(len(*s))]).items) == 2
+//@       && C_pGroup_v((*s)[old(len(*s))]).items[0] == C_token(mk_token("package", A_string(path)))
+//@       && C_pGroup_v((*s)[old(len(*s))]).items[1] == C_token(mk_token("identifier", A_string(name)))
+
+//@ func (*Statement).Custom [C14,C20,C01,C09]
+//@   requires s != nil
+//@   modifies *s, tail(*s)
+//@   ensures [C14,C20] self: result == s
+//@   ensures [C14,C20,C01] appended: len(*s) == old(len(*s)) + 1 && (forall j int :: { (*s)[j] } (0 <= j && j < old(len(*s))) ==> (*s)[j] == old((*s)[j]))
+//@   ensures [C14,C01] item: is_C_pGroup((*s)[old(len(*s))]) && fresh(C_pGroup_v((*s)[old(len(*s))]))
+//@       && C_pGroup_v((*s)[old(len(*s))]).name == "custom" && C_pGroup_v((*s)[old(len(*s))]).open == options.Open && C_pGroup_v((*s)[old(len(*s))]).close == options.Close
+//@       && C_pGroup_v((*s)[old(len(*s))]).separator == options.Separator && C_pGroup_v((*s)[old(len(*s))]).multi == options.Multi && C_pGroup_v((*s)[old(len(*s))]).items == statements
+
+//@ func (*Statement).Tag [C14,C17,C20,C09]
+//@   requires s != nil
+//@   modifies *s, tail(*s)
+//@   ensures [C14,C20] self: result == s
+//@   ensures [C14,C20] appended: len(*s) == old(len(*s)) + 1 && (forall j int :: { (*s)[j] } (0 <= j && j < old(len(*s))) ==> (*s)[j] == old((*s)[j]))
+//@   ensures [C14,C17] item: (*s)[old(len(*s))] == C_tag(mk_tag(items))
+
+//@ func (*Statement).Comment [C14,C15,C20,C09]
+//@   requires s != nil
+//@   modifies *s, tail(*s)
+//@   ensures [C14,C20] self: result == s
+//@   ensures [C14,C20] appended: len(*s) == old(len(*s)) + 1 && (forall j int :: { (*s)[j] } (0 <= j && j < old(len(*s))) ==> (*s)[j] == old((*s)[j]))
+//@   ensures [C14,C15] item: (*s)[old(len(*s))] == C_comment(mk_comment(str))
+
+//@ func (*Statement).Do [C14,C09]
+//@   requires s != nil
+//@   modifies calls[f], apiEffects
+//@   ensures [C14] self: result == s
+//@   ensures [C14] once: calls[f] == old(calls[f]) + 1
+
+//@ func (*Statement).LitFunc [C14,C11,C09]
+//@   requires s != nil
+//@   modifies calls[f], apiEffects
+//@   ensures [C14] self: result == s
+//@   ensures [C14,C11] once: calls[f] == old(calls[f]) + 1
+//@   ensures [C14,C11] item: len(*s) >= 1 && is_C_token((*s)[len(*s) - 1]) && C_token_v((*s)[len(*s) - 1]).typ == "literal"
+
+//@ func (*Statement).LitRuneFunc [C14,C12,C09]
+//@   requires s != nil
+//@   modifies calls[f], apiEffects
+//@   ensures [C14] self: result == s
+//@   ensures [C14,C12] once: calls[f] == old(calls[f]) + 1
+//@   ensures [C14,C12] item: len(*s) >= 1 && is_C_token((*s)[len(*s) - 1]) && C_token_v((*s)[len(*s) - 1]).typ == "literal_rune" && is_A_int32(C_token_v((*s)[len(*s) - 1]).content)
+
+//@ func (*Statement).LitByteFunc [C14,C12,C09]
+//@   requires s != nil
+//@   modifies calls[f], apiEffects
+//@   ensures [C14] self: result == s
+//@   ensures [C14,C12] once: calls[f] == old(calls[f]) + 1
+//@   ensures [C14,C12] item: len(*s) >= 1 && is_C_token((*s)[len(*s) - 1]) && C_token_v((*s)[len(*s) - 1]).typ == "literal_byte" && is_A_uint8(C_token_v((*s)[len(*s) - 1]).content)
+
+//@ func (*Statement).CustomFunc [C14,C01,C09]
+//@   requires s != nil
+//@   modifies calls[f], apiEffects
+//@   ensures [C14] self: result == s
+//@   ensures [C14] once: calls[f] == old(calls[f]) + 1
+//@   ensures [C14,C01] item: len(*s) >= 1 && is_C_pGroup((*s)[len(*s) - 1]) && fresh(C_pGroup_v((*s)[len(*s) - 1]))
+//@       && C_pGroup_v((*s)[len(*s) - 1]).name == "custom" && C_pGroup_v((*s)[len(*s) - 1]).open == options.Open && C_pGroup_v((*s)[len(*s) - 1]).close == options.Close
+//@       && C_pGroup_v((*s)[len(*s) - 1]).separator == options.Separator && C_pGroup_v((*s)[len(*s) - 1]).multi == options.Multi
+
+//@ func DictFunc [C14,C16,C09]
+//@   modifies calls[f], apiEffects
+//@   ensures [C14] once: calls[f] == old(calls[f]) + 1
+//@   ensures [C14] fresh: fresh(result)
